@@ -528,7 +528,7 @@ RULES = [("writeset", rule_writeset), ("stack", rule_stack), ("multiset", rule_m
 # rules); and the record unmake reads the en-passant file back from must agree with the board from the first position on,
 # which for a position loaded from FEN is the synthetic record (C07.history)
 RULES += engine.premise_rules("c04", ["piece-pair", "turn-pair", "ep-pair", "castle-pair", "castle-revert"])
-RULES += engine.premise_rules("c07", ["history", "build"])
+RULES += engine.premise_rules("c07", ["fields", "history", "build"])
 
 
 def run(tier):
